@@ -1,8 +1,16 @@
 #!/bin/sh
 # usage: try_mut.sh <patch.diff> <ID> [tier]  — apply a seeded change to /repo, run the check, undo.
+# The evidence file and replay vectors of the clean tree are saved and restored, so that what is
+# committed always describes a run on the unchanged tree.
 P="$1"; ID="$2"; TIER="${3:-quick}"
 cd /repo || exit 2
 git -C /repo apply "$P" || { echo "patch does not apply"; exit 2; }
+S=$(mktemp -d /tmp/trymut.XXXXXX)
+[ -f /verif/evidence/$ID.json ] && cp /verif/evidence/$ID.json $S/evidence.json
+[ -d /verif/replays/$ID ] && cp -r /verif/replays/$ID $S/replays
 cd /verif && ./check "$ID" --tier "$TIER" > /tmp/try_mut_$ID.log 2>&1; rc=$?
-git -C /repo checkout -- . 
-echo "check exit=$rc"; grep -E "^(VIOLATION|KNOWN-FINDING|INCONCLUSIVE|SPURIOUS|NOTE)|VIOLATED" /tmp/try_mut_$ID.log | head -20
+git -C /repo checkout -- .
+[ -f $S/evidence.json ] && cp $S/evidence.json /verif/evidence/$ID.json
+rm -rf /verif/replays/$ID; [ -d $S/replays ] && cp -r $S/replays /verif/replays/$ID
+rm -rf $S
+echo "check exit=$rc"; grep -E "^(VIOLATION|KNOWN-FINDING|INCONCLUSIVE|SPURIOUS|NOTE)|VIOLATED" /tmp/try_mut_$ID.log | cut -c1-400 | head -20
